@@ -130,6 +130,30 @@ MovesWinS(h, kn) ==
         \o MapS(SelectSeq(iv, LAMBDA c : t.nm[c] = "g"), LAMBDA c : MGroupBy(i, <<Col(c)>>, FALSE))
 
 ---------------------------------------------------------------------------
+(* C10: a handful of expression OBJECTS (the replayer keeps one python object per distinct expression) used *)
+(* under different grouping states, in mutate and in summarize, interleaved with other verbs                *)
+MovesImm(h, kn) ==
+    LET i  == Len(h)
+        t  == h[i]
+        a  == IF "a" \in VisNames(t) THEN <<ByName(t)["a"]>> ELSE <<>>
+        b  == IF "b" \in VisNames(t) THEN <<ByName(t)["b"]>> ELSE <<>>
+        g  == IF "g" \in VisNames(t) THEN <<ByName(t)["g"]>> ELSE <<>>
+        p  == IF "p" \in VisNames(t) THEN <<ByName(t)["p"]>> ELSE <<>>
+        pool == MapS(b, LAMBDA c : Agg("sum", Col(c)))
+                \o MapS(a, LAMBDA c : Fn2("add", Agg("max", Col(c)), LitI(1)))
+                \o (IF a # <<>> /\ b # <<>> THEN <<Win("row_number", <<>>, <<Ord(Col(b[1]), FALSE, "first"), Ord(Col(a[1]), TRUE, "last")>>),
+                                                   AggF("count", Col(a[1]), Fn2("gt", Col(b[1]), LitI(0)))>> ELSE <<>>)
+        wn == IF NameFree(t, "w") THEN "w" ELSE IF NameFree(t, "w2") THEN "w2" ELSE "w3"
+        aggOnly == SelectSeq(pool, LAMBDA e : e.k # "win")
+    IN  MapS(pool, LAMBDA e : MMutate(i, <<KV(wn, e)>>))
+        \o (IF Summarized(t) THEN <<>> ELSE MapS(aggOnly, LAMBDA e : MSummarize(i, <<KV("s", e)>>)))
+        \o MapS(g, LAMBDA c : MGroupBy(i, <<Col(c)>>, FALSE))
+        \o MapS(p, LAMBDA c : MGroupBy(i, <<Col(c)>>, FALSE))
+        \o (IF t.part # <<>> THEN <<MUngroup(i)>> \o MapS(SelectSeq(p, LAMBDA c : c \notin {t.part[q] : q \in DOMAIN t.part}),
+                                                             LAMBDA c : MGroupBy(i, <<Col(c)>>, TRUE)) ELSE <<>>)
+        \o MapS(b, LAMBDA c : MFilter(i, <<Fn2("gt", Col(c), LitI(0))>>))
+
+---------------------------------------------------------------------------
 (* C12: typed alphabet - every way a column of a new type comes into being *)
 TyExprs(t) ==
     LET iv == Take(VisOfTy(t, "int"), 2)
